@@ -155,6 +155,32 @@ CHECKS["C07"] = (
     "line, name), pinned by calibration replays on every run.",
     "DESIGN.md 3/C07")
 
+CHECKS["C10"] = (
+    "differential testing: CPython identity-tracking taint ground truth (driven by the rule set) vs lian's find_flows over generated chain "
+    "projects; calibration projects and exhaustive single / pair / triple link sweeps",
+    "15 hand-written one-flow calibration projects (every source kind, sink kind and target position), a deterministic sweep of every "
+    "single link kind (~45 kinds: assignments, operators, parameter passing, returns, fields, container elements, closures, globals, "
+    "cross-file from-import / module attribute), 125 fixed triples around function boundaries (thorough: all 3362 ordered pairs) and "
+    "Hypothesis-generated 1-3 file projects with <= 3 sources, <= 3 sinks and chains of 0-4 links (merges, fan-outs) are executed by "
+    "CPython with identity-tracking Taint objects; every (source statement, sink statement) pair whose designated operand is the tainted "
+    "object itself must be among the reported flows. Missed pairs are minimised by link deletion and signed by miss class.",
+    "Only direct taint of the designated operand is demanded (no containment, no implicit flows); chains, not arbitrary programs; Python "
+    "only; random chains of >= 3 links fall under one open umbrella finding, the fixed triples are exact.",
+    "DESIGN.md 3/C10")
+
+CHECKS["C11"] = (
+    "generated projects x perturbed rule sets: every reported flow checked against a reference rule matcher (python AST) and a coarse "
+    "flow- and context-insensitive dependence graph; empty-rule and rule-monotonicity metamorphic relations; sink-check instrumentation",
+    "The C10 projects with half the chains ending in a negative construction (other argument position, unrelated field / object / variable, "
+    "overwritten value, callee returning a constant, dropped value, decoy statements whose name collides with a rule of another kind) and "
+    "rule sets perturbed with matching / non-matching unit_name, line_num, lang and same-named rules of another operation; each reported "
+    "flow must start and end at statements matching a rule under the reference matcher, the designated operand must depend on the source "
+    "in the reference graph, empty rule sets yield no flow and flows(R) is a subset of flows(R + dR). The reference is self-checked "
+    "against the CPython ground truth on every case.",
+    "Reference = my reading of the rule fields (a call_stmt rule with a dotted name also designates the method call, as the shipped rules "
+    "do) and a deliberately coarse name-based graph; the shipped from-code rules are swept on 16 lines per thorough run.",
+    "DESIGN.md 3/C11")
+
 NOT_YET = {}
 
 
